@@ -370,3 +370,312 @@ Proof.
     + apply (vjp_fallback_ok k ms Hk Hf).
   - apply (vjp_fallback_ok k ms Hk Hf).
 Qed.
+
+(* ---------- compute_vjp_multi: the single-parameter branch ---------- *)
+Lemma vjp_multi_array_sum : forall ms, ms <> [] -> Forall (wf_m 1) ms ->
+  compute_vjp_multi (enc_dy ms) (enc_jac_a ms)
+  = match vsum1 (vjp_rows ms) with Some c => Ok (VT (T1 c)) | None => Err end.
+Proof.
+  intros ms Hne Hf. unfold enc_dy, enc_jac_a. fold (dyl ms).
+  destruct ms as [|m0 ms']; [congruence|].
+  unfold compute_vjp_multi. cbn [map].
+  replace (is_tup (enc_e (m_sc m0) (hd [] (m_rows m0)))) with false by reflexivity.
+  cbn [negb].
+  change (enc_e (m_sc m0) (hd [] (m_rows m0)) :: map (fun m => enc_e (m_sc m) (hd [] (m_rows m))) ms')
+    with (map (fun m => enc_e (m_sc m) (hd [] (m_rows m))) (m0 :: ms')).
+  set (ms := m0 :: ms') in *.
+  unfold dyl. rewrite map2o_map.
+  rewrite (all_some_ext _ (fun m => T1 (map (dot (m_dy m)) (m_rows m)))).
+  - rewrite <- (map_map (fun m => map (dot (m_dy m)) (m_rows m)) T1). fold (vjp_rows ms).
+    rewrite sum_stack_T1. destruct (vsum1 (vjp_rows ms)); reflexivity.
+  - eapply Forall_impl; [|exact Hf]. intros m (Hd & Hlen & Hr). cbn beta.
+    destruct (m_rows m) as [|r [|? ?]]; cbn in Hlen; try discriminate.
+    inversion Hr; subst. cbn [hd]. rewrite vjp_single_array_ok by assumption. reflexivity.
+Qed.
+
+Lemma vjp_multi_tuple_contraction : forall k ms, k <> O -> ms <> [] -> Forall (wf_m k) ms ->
+  exists c, compute_vjp_multi (enc_dy ms) (enc_jac_t ms) = Ok (VT (T1 c)) /\ length c = k /\
+            forall p, nth p c 0 = contract_vjp ms p.
+Proof.
+  intros k ms Hk Hne Hf.
+  destruct (vsum1_some k (vjp_rows ms)) as (c & Hc & Hl).
+  - unfold vjp_rows. destruct ms; [congruence | discriminate].
+  - apply vjp_rows_len; assumption.
+  - exists c. rewrite (vjp_multi_tuple_sum k ms Hk Hne Hf), Hc.
+    split; [reflexivity|]. apply (contract_vjp_spec k ms c Hf Hc).
+Qed.
+
+Lemma vjp_multi_array_contraction : forall ms, ms <> [] -> Forall (wf_m 1) ms ->
+  compute_vjp_multi (enc_dy ms) (enc_jac_a ms) = Ok (VT (T1 [contract_vjp ms 0])).
+Proof.
+  intros ms Hne Hf.
+  destruct (vsum1_some 1 (vjp_rows ms)) as (c & Hc & Hl).
+  - unfold vjp_rows. destruct ms; [congruence | discriminate].
+  - apply vjp_rows_len; assumption.
+  - rewrite (vjp_multi_array_sum ms Hne Hf), Hc.
+    destruct (contract_vjp_spec 1 ms c Hf Hc) as [_ Hn].
+    rewrite <- (Hn O). destruct c as [|x [|? ?]]; cbn in Hl; try discriminate. reflexivity.
+Qed.
+
+Lemma vjp_multi_sum_of_singles : forall k ms, k <> O -> ms <> [] -> Forall (wf_m k) ms ->
+  Forall (fun m => compute_vjp_single (enc_e (m_sc m) (m_dy m)) (VTup (map (enc_e (m_sc m)) (m_rows m)))
+                   = Ok (VT (T1 (map (dot (m_dy m)) (m_rows m))))) ms /\
+  compute_vjp_multi (enc_dy ms) (enc_jac_t ms)
+  = match sum_stack (map (fun m => T1 (map (dot (m_dy m)) (m_rows m))) ms) with
+    | Some t => Ok (VT t) | None => Err end.
+Proof.
+  intros k ms Hk Hne Hf. split.
+  - eapply Forall_impl; [|exact Hf]. intros m (Hd & Hlen & Hr).
+    apply vjp_single_tuple_ok; try assumption. destruct (m_rows m); [cbn in Hlen; congruence | discriminate].
+  - rewrite (vjp_multi_tuple_sum k ms Hk Hne Hf).
+    rewrite <- (map_map (fun m => map (dot (m_dy m)) (m_rows m)) T1). fold (vjp_rows ms).
+    rewrite sum_stack_T1. destruct (vsum1 (vjp_rows ms)); reflexivity.
+Qed.
+
+(* ---------- compute_jvp_single / multi ---------- *)
+Lemma nth_vscale : forall c r i, nth i (vscale c r) 0 = c * nth i r 0.
+Proof.
+  induction r as [|x r IH]; intros i; destruct i; cbn; try lia. apply IH.
+Qed.
+
+Lemma lincomb_T0 : forall tg rows, length tg = length rows -> rows <> [] ->
+  lincomb tg (map (enc_t true) rows) = Some (T0 (dot tg (map (hd 0) rows))).
+Proof.
+  induction tg as [|c tg IH]; intros [|r rows] Hl Hne; cbn in Hl; try congruence; try discriminate.
+  destruct rows as [|r2 rows].
+  - destruct tg; [|discriminate]. cbn. do 2 f_equal. lia.
+  - destruct tg as [|c2 tg]; [discriminate|].
+    specialize (IH (r2 :: rows)). cbn [map] in *. cbn [lincomb].
+    cbn [lincomb] in IH. rewrite IH; [|cbn in *; lia | discriminate]. reflexivity.
+Qed.
+
+Lemma lincomb_T1 : forall d tg rows, length tg = length rows -> rows <> [] ->
+  Forall (fun r => length r = d) rows ->
+  exists L, lincomb tg (map (enc_t false) rows) = Some (T1 L) /\ length L = d /\
+            forall i, nth i L 0 = contract_jvp tg rows i.
+Proof.
+  intros d. induction tg as [|c tg IH]; intros [|r rows] Hl Hne Hf; cbn in Hl; try congruence; try discriminate.
+  inversion Hf as [|? ? Hr Hf']; subst.
+  destruct rows as [|r2 rows].
+  - destruct tg; [|discriminate]. exists (vscale c r). split; [reflexivity|]. split.
+    + unfold vscale. rewrite map_length. reflexivity.
+    + intros i. rewrite nth_vscale. unfold contract_jvp. cbn. lia.
+  - destruct tg as [|c2 tg]; [discriminate|].
+    destruct (IH (r2 :: rows)) as (L & HL & Hlen & Hn); [cbn in *; lia | discriminate | assumption|].
+    cbn [map] in *. cbn [lincomb]. cbn [lincomb] in HL. rewrite HL.
+    exists (vadd (vscale c r) L).
+    assert (Hlv : length (vscale c r) = length L) by (unfold vscale; rewrite map_length; lia).
+    split; [|split].
+    + unfold tadd. cbn [tscale enc_t tshape eqb_ln]. rewrite Hlv, Nat.eqb_refl. reflexivity.
+    + rewrite vadd_length by assumption. unfold vscale. rewrite map_length. reflexivity.
+    + intros i. rewrite nth_vadd by assumption. rewrite nth_vscale, Hn. unfold contract_jvp. cbn. lia.
+Qed.
+
+Lemma jvp_single_scalar_ok : forall tg rows, length tg = length rows -> rows <> [] ->
+  compute_jvp_single tg (VTup (map (enc_e true) rows)) = Ok (VT (T0 (dot tg (map (hd 0) rows)))).
+Proof.
+  intros tg rows Hl Hne. unfold compute_jvp_single.
+  destruct (map (enc_e true) rows) eqn:Em; [destruct rows; [congruence | discriminate]|].
+  rewrite <- Em. rewrite as_t_enc, lincomb_T0 by assumption. reflexivity.
+Qed.
+
+Lemma jvp_single_vector_ok : forall d tg rows, length tg = length rows -> rows <> [] ->
+  Forall (fun r => length r = d) rows ->
+  exists L, compute_jvp_single tg (VTup (map (enc_e false) rows)) = Ok (VT (T1 L)) /\ length L = d /\
+            forall i, nth i L 0 = contract_jvp tg rows i.
+Proof.
+  intros d tg rows Hl Hne Hf. destruct (lincomb_T1 d tg rows Hl Hne Hf) as (L & HL & Hlen & Hn).
+  exists L. split; [|split; assumption]. unfold compute_jvp_single.
+  destruct (map (enc_e false) rows) eqn:Em; [destruct rows; [congruence | discriminate]|].
+  rewrite <- Em. rewrite as_t_enc, HL. reflexivity.
+Qed.
+
+Lemma jvp_single_array_ok : forall c t, is_shape0 t = false ->
+  compute_jvp_single [c] (VT t) = Ok (VT (tscale c t)).
+Proof. intros c t H. unfold compute_jvp_single. rewrite H. reflexivity. Qed.
+
+Lemma jvp_multi_is_map : forall tg js,
+  compute_jvp_multi tg (VTup js)
+  = match all_ok (map (compute_jvp_single tg) js) with Some l => Ok (VTup l) | None => Err end.
+Proof. reflexivity. Qed.
+
+(* ---------- the zero shortcut of vjp() ---------- *)
+Lemma dot_zero_l : forall dy r, Forall (eq 0) dy -> dot dy r = 0.
+Proof.
+  induction dy as [|x dy IH]; intros r H; [reflexivity|].
+  inversion H; subst. destruct r; [reflexivity|]. cbn [dot]. rewrite IH by assumption. lia.
+Qed.
+
+Lemma all_zero_repeat : forall k c, length c = k -> (forall p, nth p c 0 = 0) -> c = repeat 0 k.
+Proof.
+  induction k; intros [|x c] Hl Hn; cbn in Hl; try discriminate; [reflexivity|].
+  cbn [repeat]. f_equal; [exact (Hn O)|]. apply IHk; [lia|]. intros p. exact (Hn (S p)).
+Qed.
+
+Lemma contract_vjp_zero : forall ms p, Forall (fun m => Forall (eq 0) (m_dy m)) ms -> contract_vjp ms p = 0.
+Proof.
+  intros ms p H. unfold contract_vjp. induction H as [|m ms Hm H IH]; [reflexivity|].
+  cbn [map fold_right]. rewrite IH, dot_zero_l by assumption. reflexivity.
+Qed.
+
+Lemma all_zero_enc_e : forall sc dy, wf_d sc (length dy) -> Forall (eq 0) dy -> all_zero_val (enc_e sc dy) = true.
+Proof.
+  intros sc dy [_ Hsc] Hz. unfold enc_e, enc_t, all_zero_val. destruct sc; cbn [flatten_t].
+  - specialize (Hsc eq_refl). destruct dy as [|a [|? ?]]; cbn in Hsc; try discriminate.
+    inversion Hz; subst. reflexivity.
+  - apply forallb_forall. intros x Hx. rewrite Forall_forall in Hz. rewrite <- (Hz x Hx). reflexivity.
+Qed.
+
+Lemma all_zero_enc_dy : forall k ms, Forall (wf_m k) ms -> Forall (fun m => Forall (eq 0) (m_dy m)) ms ->
+  all_zero_val (enc_dy ms) = true.
+Proof.
+  intros k ms Hf Hz. unfold enc_dy. cbn [all_zero_val]. apply forallb_forall. intros v Hv.
+  apply in_map_iff in Hv as (m & <- & Hin). rewrite Forall_forall in Hf, Hz.
+  apply all_zero_enc_e; [apply (Hf m Hin) | apply (Hz m Hin)].
+Qed.
+
+Lemma zero_dy_shortcut_multi : forall t g results ms,
+  tp_k t <> O -> multi t = true -> partitioned t = false -> ms <> [] ->
+  Forall (wf_m (tp_k t)) ms -> Forall (fun m => Forall (eq 0) (m_dy m)) ms ->
+  snd g results = enc_jac_t ms ->
+  snd (vjp_tape t (enc_dy ms) g) results = vjp_proc t (enc_dy ms) g results.
+Proof.
+  intros t g results ms Hk Hm Hp Hne Hf Hz Hg.
+  unfold vjp_tape. destruct (Nat.eqb_spec (tp_k t) 0) as [E|_]; [congruence|].
+  rewrite (all_zero_enc_dy _ ms Hf Hz). cbn [snd].
+  unfold vjp_proc. rewrite Hm, Hp, Hg. cbn [negb].
+  destruct (vjp_multi_tuple_contraction (tp_k t) ms Hk Hne Hf) as (c & -> & Hl & Hn).
+  do 3 f_equal. symmetry. apply all_zero_repeat; [assumption|].
+  intros p. rewrite Hn. apply contract_vjp_zero. assumption.
+Qed.
+
+Lemma map_dot_zero : forall dy rows, Forall (eq 0) dy -> map (dot dy) rows = repeat 0 (length rows).
+Proof.
+  intros dy rows H. induction rows; cbn; [reflexivity|]. rewrite IHrows, dot_zero_l by assumption. reflexivity.
+Qed.
+
+Lemma zero_dy_shortcut_single : forall t g results sc dy rows,
+  tp_k t <> O -> multi t = false -> partitioned t = false ->
+  wf_d sc (length dy) -> length rows = tp_k t -> Forall (fun r => length r = length dy) rows ->
+  Forall (eq 0) dy -> snd g results = VTup (map (enc_e sc) rows) ->
+  snd (vjp_tape t (enc_e sc dy) g) results = vjp_proc t (enc_e sc dy) g results.
+Proof.
+  intros t g results sc dy rows Hk Hm Hp Hd Hlen Hr Hz Hg.
+  unfold vjp_tape. destruct (Nat.eqb_spec (tp_k t) 0) as [E|_]; [congruence|].
+  rewrite (all_zero_enc_e sc dy Hd Hz). cbn [snd].
+  unfold vjp_proc. rewrite Hm, Hp, Hg. cbn [negb].
+  rewrite vjp_single_tuple_ok; try assumption.
+  - rewrite map_dot_zero, Hlen by assumption. reflexivity.
+  - destruct rows; [cbn in Hlen; congruence | discriminate].
+Qed.
+
+(* the zero-tangent shortcut of jvp() does not agree with the contraction path when the tape has a shot vector *)
+Lemma jvp_zero_shortcut_shots_counterexample :
+  exists t tg g results, tp_k t <> O /\ partitioned t = true /\ forallb (Z.eqb 0) tg = true /\
+    snd (jvp_tape t tg g) results <> jvp_proc t tg g results.
+Proof.
+  exists (Build_tape 1 [0%nat] 2), [0], (1%nat, fun _ => VTup [VT (T0 1); VT (T0 1)]), [1].
+  repeat split; try reflexivity; [discriminate | vm_compute; discriminate].
+Qed.
+
+(* ---------- batch processing ---------- *)
+Definition prepend (acc : list val) (r : res) : res :=
+  match r with Ok (VTup l) => Ok (VTup (acc ++ l)) | _ => Err end.
+
+Lemma prepend_prepend : forall a b r, prepend a (prepend b r) = prepend (a ++ b) r.
+Proof. intros a b [[| |l]|]; cbn; try reflexivity. rewrite app_assoc. reflexivity. Qed.
+
+Lemma batch_loop_acc : forall ext fs results acc,
+  batch_loop ext fs results acc = prepend acc (batch_loop ext fs results []).
+Proof.
+  intros ext fs. induction fs as [|[n f] fs IH]; intros results acc.
+  - cbn. rewrite app_nil_r. reflexivity.
+  - cbn [batch_loop]. destruct (f (firstn n results)) as [v|]; [|reflexivity].
+    destruct ext; destruct v as [|t|l]; cbn [app];
+      repeat match goal with |- context [match iter_val ?v with _ => _ end] => destruct (iter_val v) end;
+      try reflexivity;
+      match goal with |- batch_loop _ _ _ ?a = prepend _ (batch_loop _ _ _ ?b) =>
+        rewrite (IH _ a), (IH _ b), prepend_prepend end; try reflexivity.
+Qed.
+
+Fixpoint run_all (fs : list (nat * (list Z -> res))) (results : list Z) : list res :=
+  match fs with [] => [] | (n, f) :: r => f (firstn n results) :: run_all r (skipn n results) end.
+Definition offset (t : nat) (fs : list (nat * (list Z -> res))) : nat :=
+  fold_right Nat.add O (map fst (firstn t fs)).
+Definition iter_or_skip (v : val) : option (list val) := match v with VNone => Some [] | _ => iter_val v end.
+
+Lemma skipn_add : forall (b a : nat) (l : list Z), skipn a (skipn b l) = skipn (b + a) l.
+Proof.
+  induction b; intros a l; [reflexivity|]. destruct l; cbn [skipn Nat.add]; [destruct a; reflexivity | apply IHb].
+Qed.
+
+Lemma run_all_slice : forall fs results t n f, nth_error fs t = Some (n, f) ->
+  nth_error (run_all fs results) t = Some (f (firstn n (skipn (offset t fs) results))).
+Proof.
+  induction fs as [|[n0 f0] fs IH]; intros results t n f H; [destruct t; discriminate|].
+  destruct t as [|t].
+  - cbn in H. inversion H; subst. reflexivity.
+  - cbn [nth_error] in H. cbn [run_all nth_error]. rewrite (IH _ t n f H).
+    unfold offset. cbn [firstn map fold_right fst]. rewrite skipn_add. reflexivity.
+Qed.
+
+Lemma batch_append_ok : forall fs results vs, all_ok (run_all fs results) = Some vs ->
+  batch_loop false fs results [] = Ok (VTup vs).
+Proof.
+  induction fs as [|[n f] fs IH]; intros results vs H.
+  - cbn in H. inversion H. reflexivity.
+  - cbn [run_all all_ok] in H. cbn [batch_loop].
+    destruct (f (firstn n results)) as [v|]; [|discriminate].
+    destruct (all_ok (run_all fs (skipn n results))) as [vs'|] eqn:E; [|discriminate].
+    inversion H; subst. specialize (IH _ _ E).
+    destruct v; cbn [app]; rewrite batch_loop_acc, IH; reflexivity.
+Qed.
+
+Lemma batch_err : forall ext fs results, all_ok (run_all fs results) = None ->
+  batch_loop ext fs results [] = Err.
+Proof.
+  intros ext. induction fs as [|[n f] fs IH]; intros results H; [discriminate|].
+  cbn [run_all all_ok] in H. cbn [batch_loop].
+  destruct (f (firstn n results)) as [v|]; [|reflexivity].
+  destruct (all_ok (run_all fs (skipn n results))) as [vs'|] eqn:E; [discriminate|].
+  specialize (IH _ E).
+  destruct ext; destruct v; cbn [app]; try destruct (iter_val _); try reflexivity;
+    rewrite batch_loop_acc, IH; reflexivity.
+Qed.
+
+Lemma batch_extend_ok : forall fs results vs ls, all_ok (run_all fs results) = Some vs ->
+  all_some (map iter_or_skip vs) = Some ls ->
+  batch_loop true fs results [] = Ok (VTup (concat ls)).
+Proof.
+  induction fs as [|[n f] fs IH]; intros results vs ls H Hi.
+  - cbn in H. inversion H; subst. cbn in Hi. inversion Hi. reflexivity.
+  - cbn [run_all all_ok] in H. cbn [batch_loop].
+    destruct (f (firstn n results)) as [v|]; [|discriminate].
+    destruct (all_ok (run_all fs (skipn n results))) as [vs'|] eqn:E; [|discriminate].
+    inversion H; subst. cbn [map all_some] in Hi.
+    destruct (iter_or_skip v) as [l|] eqn:Ev; [|discriminate].
+    destruct (all_some (map iter_or_skip vs')) as [ls'|] eqn:El; [|discriminate].
+    inversion Hi; subst. specialize (IH _ _ _ E El). cbn [concat].
+    destruct v as [|t|l0]; cbn [iter_or_skip] in Ev.
+    + inversion Ev; subst. rewrite IH. reflexivity.
+    + rewrite Ev. cbn [app]. rewrite batch_loop_acc, IH. reflexivity.
+    + rewrite Ev. cbn [app]. rewrite batch_loop_acc, IH. reflexivity.
+Qed.
+
+Lemma batch_extend_not_iterable : forall fs results vs, all_ok (run_all fs results) = Some vs ->
+  all_some (map iter_or_skip vs) = None -> batch_loop true fs results [] = Err.
+Proof.
+  induction fs as [|[n f] fs IH]; intros results vs H Hi.
+  - cbn in H. inversion H; subst. discriminate.
+  - cbn [run_all all_ok] in H. cbn [batch_loop].
+    destruct (f (firstn n results)) as [v|]; [|discriminate].
+    destruct (all_ok (run_all fs (skipn n results))) as [vs'|] eqn:E; [|discriminate].
+    inversion H; subst. cbn [map all_some] in Hi.
+    destruct v as [|t|l0]; cbn [iter_or_skip] in Hi.
+    + destruct (all_some (map iter_or_skip vs')) eqn:El; [discriminate|]. apply (IH _ _ E El).
+    + destruct (iter_val (VT t)); [|reflexivity].
+      destruct (all_some (map iter_or_skip vs')) eqn:El; [discriminate|].
+      cbn [app]. rewrite batch_loop_acc, (IH _ _ E El). reflexivity.
+    + cbn [iter_val] in *. destruct (all_some (map iter_or_skip vs')) eqn:El; [discriminate|].
+      cbn [app]. rewrite batch_loop_acc, (IH _ _ E El). reflexivity.
+Qed.
